@@ -225,6 +225,7 @@ func c16(c *Ctx) {
 		return
 	}
 	c16Run(c, "C16", c16Decoders, true)
+	c09EntryCountBounded(c, "C16.9/entry-count-bounded")
 }
 
 // c16Run decides the bounds obligations of the given decoders (shared by C16 and, for the tx-record decoders, C09).
